@@ -419,6 +419,9 @@ partial def runCase (lines : Array String) : Array String := Id.run do
           if r.head? != some "ok" then
             ic := { ic with newOk := false }
           j := j + 1
+        | "memviol" :: r =>
+          ic := { ic with expects := ic.expects, memViol := some (" ".intercalate r) }
+          j := j + 1
         | _ => break
       ic := { ic with ops := ic.ops.push iop }
       i := j
